@@ -21,7 +21,9 @@ inductive Role
   /-- random-generator state (the seedable shuffle generator, `std::rand`) drawn by a randomised stage:
       SPE, landmark selection, random projection, t-SNE, manifold sculpting, the randomized eigensolver -/
   | randomStream
-  /-- `std::rand` drawn by the VP-tree to choose vantage points: does not influence an exact search -/
+  /-- a draw from the global stream inside the VP-tree's `#ifdef CUSTOM_UNIFORM_RANDOM_FUNCTION` branch (the documented
+      override; without it the tree uses a generator it owns, F-VP-RAND): does not influence an exact search.  Any other
+      rand() / uniform_random() call in the VP-tree is a `randomStream` on a deterministic path, i.e. not accounted for -/
   | vantageChoice
   /-- the `TAPKEE_VERIF`-only observer hook (the library hands copies to it and reads nothing back) -/
   | verifHook
